@@ -112,6 +112,56 @@ def _props(it):
     return Opaque('propsdict', 'props')
 
 
+def sym_update_props_not_shared(vc):
+    """update_schema / update_resource: a structured value (a fields list, a schema dict) given as a keyword argument is stored in
+    each selected resource as a value of that resource's own -- never the caller's object, which would then sit in several
+    descriptors at once so that a later step restricted to ONE resource (set_type, rename_fields edit fields in place) rewrites the
+    others: "every other resource passes through with identical descriptor" """
+    from pyvc.api import real_function, LoopSpec, check, cover, PyList, PyDict
+    from contracts.common import tree_writes_under
+    for which in ('update_schema', 'update_resource'):
+        fk = vc.under_contract(P + which + '.py', [which, 'func'])
+
+        def thunk(it, which=which):
+            maker = real_function(it, 'dataflows.processors.' + which, which)
+            f0 = PyDict({'name': 'id', 'type': 'integer'})
+            fl = PyList([f0])
+            sch = PyDict({'fields': fl})
+            func = it.call(maker, [None], dict(fields=fl) if which == 'update_schema' else dict(schema=sch))
+            package = mk_package2(it)
+
+            def reach(v, seen=None):
+                """objects reachable from a stored value"""
+                seen = [] if seen is None else seen
+                if any(v is s for s in seen):
+                    return seen
+                seen.append(v)
+                if isinstance(v, PyList):
+                    for x in v.items:
+                        reach(x, seen)
+                elif isinstance(v, PyDict):
+                    for x in v.d.values():
+                        reach(x, seen)
+                return seen
+
+            def at_end(it, env, rd, events):
+                ws = [e for e in tree_writes_under(events, rd) if e.kind == 'TreeWrite']
+                check(it, 'selected-resource-gets-the-property[%s]' % which, len(ws) == 1)
+                for e in ws:
+                    objs = reach(e.value)
+                    check(it, 'stored-value-is-the-resources-own-not-the-callers-object[%s]' % which,
+                          not any(o is c for o in objs for c in (f0, fl, sch)))
+                    check(it, 'stored-value-has-the-given-content[%s]' % which, isinstance(e.value, (PyList, PyDict)) and
+                          (e.value.items[0].d == f0.d if which == 'update_schema' else e.value.d['fields'].items[0].d == f0.d))
+                cover(it, 'iter-reachable[%s]' % which)
+            it.loops['func#L0'] = LoopSpec(at_start=lambda it, env, rd: rd, at_end=at_end)
+            it.loops['func#L1'] = LoopSpec(modes=('exit',))
+            it.run_generator(it.call(func, [package]))
+            check(it, 'callers-arguments-left-as-given[%s]' % which, f0.d == {'name': 'id', 'type': 'integer'} and fl.items == [f0] and
+                  sch.d == {'fields': fl})
+        vc.explore(fk, thunk, min_paths=2)
+
+
 def sym_delete_resource(vc):
     """delete_resource: selected streams are dropped AND drained; unselected pass as the same object"""
     import z3
@@ -324,9 +374,16 @@ def nat_pipeline(h):
         pname = h.rng.choice(sorted(procs))
         base = [Flow(*[it for d, n in zip(data, names) for it in ([dict(r) for r in d], update_resource(-1, name=n))])]
 
+        # an earlier step may have given all resources one and the same schema value (update_schema / update_resource with a
+        # structured argument): a later step restricted to some resources must still leave the others alone
+        shared = h.rng.choice([None, None, 'update_schema', 'update_resource'])
+        flds = [{'name': 'v', 'type': 'integer'}, {'name': 't', 'type': 'string'}]
+        pre = [] if shared is None or not all(data) else \
+            [update_schema(None, fields=flds) if shared == 'update_schema' else update_resource(None, schema={'fields': flds})]
+
         def run(extra):
             flow = Flow(*[x for d, n in zip(data, names) for x in ([dict(r) for r in d], update_resource(-1, name=n))],
-                        *extra)
+                        *pre, *extra)
             res, dp, _ = flow.results()
             return {r['name']: (r, rows) for r, rows in zip(dp.descriptor['resources'], res)}
         ref = h.run(lambda: run([]))
@@ -345,7 +402,7 @@ def nat_pipeline(h):
         for n in names:
             if n in selected:
                 continue
-            h.check(n in got[1] and got[1][n] == ref[1][n], P + pname, (pname, sel, names, data),
+            h.check(n in got[1] and got[1][n] == ref[1][n], P + pname, (pname, sel, names, data, shared),
                     ref[1].get(n), got[1].get(n), note='non-selected resource %r changed' % n)
 
 
@@ -410,6 +467,7 @@ def _items():
             dict(resources=sel)
     items.append(_closure_item('unpivot.func', 'unpivot.py', 'unpivot', 'func', 'dataflows.processors.unpivot',
                                unp_args, gen_of({'unpivot_rows'}), 'func#L4', pkg_loop='func#L0'))
+    items.append(Item('update-props-not-shared', sym_update_props_not_shared, [], P + 'update_schema.py::update_schema.func'))
     items.append(Item('delete_resource.func', sym_delete_resource, [], P + 'delete_resource.py::delete_resource.func'))
     items.append(Item('validate', sym_validate, [], P + 'validate.py::validate.process_resource'))
     items.append(Item('set_type', sym_set_type, [], P + 'set_type.py::set_type.process_resources'))
@@ -418,6 +476,9 @@ def _items():
     items.append(_closure_item('printer.step', 'printer.py', 'printer', 'step', 'dataflows.processors.printer', pr_args,
                                gen_of({'func'}), 'step#L0'))
     items.append(Item('pipeline', None, [('frame-differential', nat_pipeline)], None))
+    from contracts import natives as NAT
+    items.append(Item('load.pair', None, [('sequential-source-selectors', NAT.nat_load_pair_selectors)],
+                      P + 'load.py::load.safe_process_datapackage'))
     return items
 
 
